@@ -54,10 +54,12 @@ FrameFieldsMatch(o, f, bs) ==
 
 JFrame(e) ==
   LET f == FrameAt(e.in, 1) IN
-  \* an unknown type is reported as such by this layer (documented error); it
-  \* may be reported as soon as the type is known or after the whole frame
+  \* an unknown type is reported as such by this layer (documented error), and only once the
+  \* whole frame has been consumed: callers skip it by simply reading the next frame, so
+  \* reporting it earlier (or for a frame whose length is refused) desynchronises the stream
   IF f.kind = "unknown" THEN
-    \/ e.res = "err" /\ e.e = "unknown" /\ (e.api = "frombuf" => e.used = 0)
+    \/ f.k = "ok" /\ e.res = "err" /\ e.e = "unknown"
+         /\ (IF e.api = "frombuf" THEN e.used = 0 ELSE e.used = f.n)
     \/ f.k = "err" /\ e.res = "err" /\ e.e = f.e /\ (e.api = "frombuf" => e.used = 0)
     \/ f.k = "more" /\ IsSync(e) /\ e.res = "more" /\ (e.api = "frombuf" => e.used = 0)
     \/ f.k = "more" /\ ~IsSync(e) /\ AsyncMore(e, Len(e.in) = 0)
@@ -126,19 +128,6 @@ TsWalk(e, bs, i, seen, j) ==
 JTs(e) == TsWalk(e, e.in, 1, "none", 1)
 
 (* ------------------------------- SETTINGS ------------------------------ *)
-RECURSIVE SettingDefects(_, _, _, _)
-\* every defect class present in the payload, scanning past defects
-SettingDefects(bs, i, seenIds, acc) ==
-  IF i > Len(bs) THEN acc
-  ELSE LET a == VarintAt(bs, i) IN
-    IF a.k = "more" THEN acc \cup {E_FRAME}
-    ELSE LET b == VarintAt(bs, i + a.n) IN
-      IF b.k = "more" THEN acc \cup {E_FRAME}
-      ELSE SettingDefects(bs, i + a.n + b.n,
-             IF SettingKept(a.val) THEN seenIds \cup {a.val} ELSE seenIds,
-             IF SettingReserved(a.val) \/ (SettingKept(a.val) /\ a.val \in seenIds)
-             THEN acc \cup {265} ELSE acc)
-
 JSettings(e) ==
   LET r == SettingsParse(e.in) IN
   IF r.k = "ok" THEN
